@@ -113,7 +113,7 @@ def classify(prop):
     cls = parts[1] if len(parts) == 3 else "unknown"
     return cls
 
-UNSUPPORTED_RE = re.compile(r"not currently supported by Kani|unsupported|undefined function|is not supported|Unwinding recursion|recursion unwinding", re.I)
+UNSUPPORTED_RE = re.compile(r"is not currently supported by Kani|Kani does not support|undefined function should be unreachable", re.I)
 
 def parse_cbmc_json(path):
     """Returns (props, status, errors). props = list of dict(property, cls, status, description, loc)."""
@@ -183,7 +183,7 @@ def run_harness(h, goto_file, mangled, workdir, time_scale=1.0):
     covers = [p for p in props if p["cls"] == "cover"]
     unwind_fail = [p for p in props if p["cls"] in ("unwind", "recursion") and p["status"] == "FAILURE"]
     fails = [p for p in props if p["cls"] not in ("cover", "unwind", "recursion") and p["status"] == "FAILURE"]
-    unsupported = [p for p in fails if UNSUPPORTED_RE.search(p["description"])]
+    unsupported = [p for p in fails if p["cls"] == "unsupported_construct" or UNSUPPORTED_RE.search(p["description"])]
     real_fails = [p for p in fails if p not in unsupported]
     for c in covers:
         # Kani encodes cover!(c) as assert(!c): FAILURE == SATISFIED
